@@ -33,8 +33,6 @@ def expected : List Expected := [
     "UNREACHABLE-PARSER: same coverage as wordField; BraceExp parts are expanded away by Fields before wordFields runs"⟩,
   ⟨⟨"expand", "param.go", "*Config.paramExp", "panic", "\"unexpected @%s param expansion\"", 1⟩,
     "UNREACHABLE-PARSER: the parser only accepts the @ operators Q E P A a U u L K k ('invalid @ expansion operator' otherwise), all of which have a case"⟩,
-  ⟨⟨"expand", "param.go", "*Config.paramExp", "panic", "err", 1⟩,
-    "REACHABLE: C28-nul-byte-quote — syntax.Quote fails on a value containing a NUL byte (`read x < file-with-NUL; echo ${x@Q}`)"⟩,
   ⟨⟨"interp", "api.go", "*Runner.Reset", "panic", "\"interp.ExecHandler should be replaced with interp.ExecHandlers, not mixed\"", 1⟩,
     "API-MISUSE: deliberate guard against passing both the deprecated ExecHandler and ExecHandlers to New; the option generator never mixes them (documented assumption of C28)"⟩,
   ⟨⟨"interp", "api.go", "*Runner.Reset", "panic", "\"use interp.New to construct a Runner\"", 1⟩,
@@ -49,16 +47,12 @@ def expected : List Expected := [
     "UNREACHABLE-INTERNAL with the default StatHandler (os.Stat/Lstat on unix always carry *syscall.Stat_t); a custom StatHandler returning a foreign FileInfo is excluded from the option generator (documented assumption)"⟩,
   ⟨⟨"interp", "os_unix.go", "*Runner.unTestOwnOrGrp", "assert", "info.Sys().(*syscall.Stat_t)", 2⟩,
     "as the first occurrence (the -G branch)"⟩,
-  ⟨⟨"interp", "runner.go", "*Runner.cmd", "panic", "err", 1⟩,
-    "REACHABLE: C28-nul-byte-quote — `set -x` tracing of an assignment whose value contains a NUL byte"⟩,
   ⟨⟨"interp", "runner.go", "*Runner.fillExpandConfig", "panic", "\"unexpected process substitution operator: %q\"", 1⟩,
     "UNREACHABLE-PARSER: ProcSubst.Op is CmdIn, CmdOut or CmdInTemp; CmdInTemp returns 'unsupported' before the goroutine starts"⟩,
   ⟨⟨"interp", "test.go", "*Runner.binTest", "panic", "\"unexpected binary test operator: %q\"", 1⟩,
     "UNREACHABLE-PARSER: every BinTestOperator the two test parsers produce has a case (explored by the search leg's test/[[ generators)"⟩,
   ⟨⟨"interp", "test.go", "*Runner.unTest", "panic", "\"unexpected unary test op: %v\"", 1⟩,
     "UNREACHABLE-PARSER: every UnTestOperator of testUnaryOp / the syntax parser has a case; TsParen never reaches unTest (ParenTest node)"⟩,
-  ⟨⟨"interp", "trace.go", "*tracer.call", "panic", "err", 1⟩,
-    "REACHABLE: C28-nul-byte-quote — `set -x` tracing of a command with an argument containing a NUL byte"⟩,
   ⟨⟨"interp", "trace.go", "*tracer.expr", "panic", "err", 1⟩,
     "UNREACHABLE-INTERNAL: printer.Print on a node of a parsed program into a bytes.Buffer; its errors are write errors or unsupported nodes, neither possible here"⟩,
   ⟨⟨"interp", "vars.go", "*Runner.assignVal", "panic", "\"unexpected conversion of kind %d\"", 1⟩,
